@@ -254,3 +254,226 @@ def register(ex):
              pi_factor(ex, "symmetric_transform", lambda rest: rest is None))
     ex.probe("augPhiMul", "Nat", "4", "data/transforms.py:symmetric_augmentation  the 4 of `torch.rand(..) * 4 * math.pi`",
              pi_factor(ex, "symmetric_augmentation", lambda rest: rest is not None))
+
+
+# ---- growth round: index expressions / call shapes the C15 and C14 proofs depend on ---------------------
+
+def first_zero_bound(ex):
+    """`phi[: <bound>] = 0.0` in symmetric_augmentation: 1 = `xy.shape[0] // num_augment`, 2 = `num_augment`,
+    3 = `xy.shape[0]`"""
+
+    def run():
+        tree = ex.parse(REL)
+        fn = ex.find_function(tree, "symmetric_augmentation") if tree else None
+        if fn is None:
+            return None
+        args = [a.arg for a in fn.args.args]
+        if len(args) < 2:
+            return None
+        xy, na = args[0], args[1]
+        rows = f"{xy}.shape[0]"
+        hits = []
+        for n in ast.walk(fn):
+            if (isinstance(n, ast.Assign) and len(n.targets) == 1 and isinstance(n.targets[0], ast.Subscript)
+                    and isinstance(n.targets[0].value, ast.Name) and n.targets[0].value.id == "phi"
+                    and isinstance(n.targets[0].slice, ast.Slice) and n.targets[0].slice.lower is None
+                    and n.targets[0].slice.upper is not None and isinstance(n.value, ast.Constant) and n.value.value == 0):
+                up = ex.norm(n.targets[0].slice.upper)
+                if up == f"{rows}//{na}":
+                    hits.append("1")
+                elif up == na:
+                    hits.append("2")
+                elif up == rows:
+                    hits.append("3")
+                else:
+                    return None
+        return hits[0] if len(hits) == 1 else None
+
+    return run
+
+
+def forwards_num_augment(ex):
+    """does StateAugmentation.__call__ hand `self.num_augment` to the augmentation function?"""
+
+    def run():
+        tree = ex.parse(REL)
+        fn = ex.find_function(tree, "StateAugmentation.__call__") if tree else None
+        if fn is None:
+            return None
+        calls = [n for n in ast.walk(fn) if isinstance(n, ast.Call) and ex.norm(n.func) == "self.augmentation"]
+        if len(calls) != 1:
+            return None
+        c = calls[0]
+        pos = len(c.args) >= 2 and ex.norm(c.args[1]) == "self.num_augment"
+        kw = any(k.arg == "num_augment" and ex.norm(k.value) == "self.num_augment" for k in c.keywords)
+        return _b(pos or kw)
+
+    return run
+
+
+def sym_default_num_augment(ex):
+    def run():
+        tree = ex.parse(REL)
+        fn = ex.find_function(tree, "symmetric_augmentation") if tree else None
+        if fn is None:
+            return None
+        args = fn.args.args
+        defaults = fn.args.defaults
+        off = len(args) - len(defaults)
+        if len(args) >= 2 and 1 - off >= 0 and isinstance(defaults[1 - off], ast.Constant) and isinstance(defaults[1 - off].value, int):
+            return str(defaults[1 - off].value)
+        return None
+
+    return run
+
+
+def cache_start_major(ex):
+    """PrecomputedCache.batchify: tensors are expanded with ops.batchify (start-major) — true; with repeat_interleave
+    (instance-major) — false"""
+
+    def run():
+        tree = ex.parse("rl4co/models/zoo/am/decoder.py")
+        fn = ex.find_function(tree, "PrecomputedCache.batchify") if tree else None
+        if fn is None:
+            return None
+        calls = [n for n in ast.walk(fn) if isinstance(n, ast.Call)]
+        if any(isinstance(c.func, ast.Attribute) and c.func.attr in ("repeat_interleave", "repeat") for c in calls):
+            return "false"
+        if any(isinstance(c.func, ast.Name) and c.func.id == "batchify" and len(c.args) == 2 and ex.norm(c.args[1]) == "num_starts"
+               for c in calls):
+            return "true"
+        return None
+
+    return run
+
+
+def select_best_gathers_td(ex):
+    """DecodingStrategy._select_best: `td = unbatchify_and_gather(td, max_idxs, self.num_starts)` (true) vs a slice of td (false)"""
+
+    def run():
+        tree = ex.parse("rl4co/utils/decoding.py")
+        fn = ex.find_function(tree, "DecodingStrategy._select_best") if tree else None
+        if fn is None:
+            return None
+        res = []
+        for n in ast.walk(fn):
+            if isinstance(n, ast.Assign) and len(n.targets) == 1 and isinstance(n.targets[0], ast.Name) and n.targets[0].id == "td":
+                v = n.value
+                if (isinstance(v, ast.Call) and isinstance(v.func, ast.Name) and v.func.id == "unbatchify_and_gather"
+                        and len(v.args) == 3 and ex.norm(v.args[0]) == "td" and ex.norm(v.args[1]) == "max_idxs"):
+                    res.append("true")
+                elif isinstance(v, ast.Subscript) and ex.norm(v.value) == "td":
+                    res.append("false")
+                else:
+                    return None
+        return res[0] if len(res) == 1 else None
+
+    return run
+
+
+OPS = "rl4co/models/nn/ops.py"
+
+
+def norm_kinds(ex):
+    """classes behind Normalization's `normalizer_class` dict, in source order: BatchNorm1d → 0, InstanceNorm1d → 1"""
+
+    def run():
+        tree = ex.parse(OPS)
+        fn = ex.find_function(tree, "Normalization.__init__") if tree else None
+        if fn is None:
+            return None
+        for n in ast.walk(fn):
+            if isinstance(n, ast.Dict) and n.keys and all(isinstance(k, ast.Constant) for k in n.keys):
+                codes = []
+                for v in n.values:
+                    nm = ex.norm(v)
+                    if nm.endswith("BatchNorm1d"):
+                        codes.append("0")
+                    elif nm.endswith("InstanceNorm1d"):
+                        codes.append("1")
+                    elif nm.endswith("LayerNorm"):
+                        codes.append("2")
+                    else:
+                        return None
+                return "[" + ", ".join(codes) + "]"
+        return None
+
+    return run
+
+
+def norm_tracks_running(ex):
+    """no `track_running_stats=False` on the normalizer construction (BatchNorm1d then uses running statistics in eval mode)"""
+
+    def run():
+        tree = ex.parse(OPS)
+        fn = ex.find_function(tree, "Normalization.__init__") if tree else None
+        if fn is None:
+            return None
+        calls = [n for n in ast.walk(fn) if isinstance(n, ast.Call) and ex.norm(n.func) == "normalizer_class"]
+        if len(calls) != 1:
+            return None
+        for k in calls[0].keywords:
+            if k.arg == "track_running_stats":
+                if isinstance(k.value, ast.Constant):
+                    return _b(bool(k.value.value))
+                return None
+        return "true"
+
+    return run
+
+
+def layer_norm_dims(ex):
+    """dims of `x.mean((1, 2))` in Normalization.forward's 'layer' branch (must not contain the batch dim 0)"""
+
+    def run():
+        tree = ex.parse(OPS)
+        fn = ex.find_function(tree, "Normalization.forward") if tree else None
+        if fn is None:
+            return None
+        dims = set()
+        found = False
+        for n in ast.walk(fn):
+            if (isinstance(n, ast.Call) and isinstance(n.func, ast.Attribute) and n.func.attr in ("mean", "var")
+                    and ex.norm(n.func.value) == "x" and len(n.args) == 1):
+                a = n.args[0]
+                if isinstance(a, ast.Tuple) and all(isinstance(e, ast.Constant) and isinstance(e.value, int) for e in a.elts):
+                    found = True
+                    dims |= {e.value for e in a.elts}
+                elif isinstance(a, ast.Constant) and isinstance(a.value, int):
+                    found = True
+                    dims.add(a.value)
+                else:
+                    return None
+        if not found or any(d < 0 for d in dims):
+            return None
+        return "[" + ", ".join(str(d) for d in sorted(dims)) + "]"
+
+    return run
+
+
+_register_round0 = register
+
+
+def register(ex):  # noqa: F811
+    _register_round0(ex)
+    ex.probe("augFirstZeroBound", "Nat", "1",
+             "data/transforms.py:symmetric_augmentation  bound of `phi[: xy.shape[0] // num_augment] = 0.0` (1 = rows // num_augment, 2 = num_augment, 3 = rows)",
+             first_zero_bound(ex))
+    ex.probe("augForwardsNumAugment", "Bool", "true",
+             "data/transforms.py:StateAugmentation.__call__  `self.augmentation(td_aug[feat], self.num_augment)` forwards num_augment",
+             forwards_num_augment(ex))
+    ex.probe("augSymDefaultNumAugment", "Nat", "8", "data/transforms.py:symmetric_augmentation  default of `num_augment`",
+             sym_default_num_augment(ex))
+    ex.probe("augCacheStartMajor", "Bool", "true",
+             "models/zoo/am/decoder.py:PrecomputedCache.batchify  tensors expanded with ops.batchify(emb, num_starts) (start-major)",
+             cache_start_major(ex))
+    ex.probe("augSelectBestGathersTd", "Bool", "true",
+             "utils/decoding.py:DecodingStrategy._select_best  `td = unbatchify_and_gather(td, max_idxs, self.num_starts)`",
+             select_best_gathers_td(ex))
+    ex.probe("augNormKinds", "List Nat", "[0, 1]",
+             "models/nn/ops.py:Normalization.__init__  classes of the normalizer dict (0 BatchNorm1d, 1 InstanceNorm1d, 2 LayerNorm)",
+             norm_kinds(ex))
+    ex.probe("augNormTracksRunning", "Bool", "true",
+             "models/nn/ops.py:Normalization.__init__  normalizer built without `track_running_stats=False`", norm_tracks_running(ex))
+    ex.probe("augLayerNormDims", "List Nat", "[1, 2]",
+             "models/nn/ops.py:Normalization.forward  dims of the 'layer' branch's `x.mean((1, 2))` / `x.var((1, 2))`", layer_norm_dims(ex))
